@@ -73,6 +73,7 @@ class MemSocket(object):
         self.n_recv = 0
         self.n_send = 0
         self.blocking_sendall = True
+        self.rx_total = 0
 
     # -- socket API used by tlslite
     def recv(self, n):
@@ -98,6 +99,7 @@ class MemSocket(object):
             raise would_block()
         out = bytes(self.rx.buf[:n])
         del self.rx.buf[:n]
+        self.rx_total += len(out)
         self._ev("recv", n, len(out))
         return out
 
